@@ -250,9 +250,7 @@ class SimDevice:
     # --------------------------------------------------------------- UI --
     def ui(self, cmd, apdu):
         if cmd == 0x02:      # echo
-            if self.cfg["echo_ok"]:
-                return apdu
-            return apdu[:-1] + bytes([apdu[-1] ^ 1])
+            return echo_answer(apdu, self.cfg["echo_ok"])
         if cmd == 0x41:      # pin buffer
             if len(apdu) != 4:
                 raise SW(0x6A01)
@@ -339,9 +337,7 @@ class SimDevice:
     # -------------------------------------------------------------- SGX --
     def sgx_system(self, cmd, apdu):
         if cmd == 0xA4:
-            if self.cfg["echo_ok"]:
-                return apdu
-            return apdu[:-1] + bytes([apdu[-1] ^ 1])
+            return echo_answer(apdu, self.cfg["echo_ok"])
         if cmd == 0xA0:
             if self.onboarded:
                 raise SW(0x6BEF)
@@ -717,6 +713,13 @@ class SimDevice:
                     st.requested.append(req)
                     return bytes([CLA, cmd, op, req])
                 if is_block:
+                    rej = (pol.get("reject_if_count") or {}).get(rec["count"])  # (k, sw)
+                    if rej and len(rec["blocks"]) == rej[0]:
+                        # the device refuses the k-th block once it has all of it (e.g.
+                        # chaining mismatch); the whole operation is abandoned
+                        self.ad = None
+                        rec["result"] = "rejected"
+                        raise SW(rej[1])
                     ask = pol.get("ask_brothers", True)
                     if callable(ask):
                         ask = ask(len(rec["blocks"]) - 1)
@@ -759,6 +762,37 @@ class SimDevice:
             return bytes([CLA, cmd, 0x06 if is_advance else 0x05])
         ad["expect"] = 0x03
         return bytes([CLA, cmd, 0x03])
+
+
+ECHO_KINDS = ["last", "first", "cla", "cmd", "header-zero", "truncated", "extended", "empty",
+              "error"]
+
+
+def echo_answer(apdu, kind):
+    """True: the correct echo; False or 'last': last byte differs; other kinds of wrong
+    echo: first payload byte, class byte, command byte, both header bytes zeroed, one byte
+    short, one byte long, header only, error status"""
+    if kind is True:
+        return apdu
+    if kind is False or kind == "last":
+        return apdu[:-1] + bytes([apdu[-1] ^ 1])
+    if kind == "first":
+        return apdu[:2] + bytes([apdu[2] ^ 0x20]) + apdu[3:]
+    if kind == "cla":
+        return bytes([apdu[0] ^ 0x80]) + apdu[1:]
+    if kind == "cmd":
+        return apdu[:1] + bytes([apdu[1] ^ 1]) + apdu[2:]
+    if kind == "header-zero":
+        return b"\x00\x00" + apdu[2:]
+    if kind == "truncated":
+        return apdu[:-1]
+    if kind == "extended":
+        return apdu + b"\x00"
+    if kind == "empty":
+        return apdu[:2]
+    if kind == "error":
+        raise SW(0x6A87)
+    raise ValueError(kind)
 
 
 def pin_policy_ok(pin):
